@@ -103,3 +103,27 @@ claim("C20", "sibling agreement of the adapter closures over go/ssa, guard/units
       "Custom static analysis: the six adapters match the table (context <=> _args_ctx with the adapter's own context; NumOut 0/1/2 <=> result adapter; each starts with defer _recover on its own error result); explicit bounds of context-taking functions are both incremented because the context builder compares against bounds-1; the count check dominates building the argument vector in both builders; result adapters follow the convention; _recover is total, calls recover() directly and NewGoError wraps with %w; names are derived by lower-casing and _ -> -; slices on LastIndex results in registration are guarded; every registration with explicit bounds passes a variadic function with min <= max.",
       "Assignability of each argument is reflect.Call's own check under the barrier.",
       "DESIGN.md §3 C20")
+
+# Rules added after the third round of seeded changes (appended to the level text of each property).
+ADDED = {
+ "C01": " Added: the three kinds of condition value (nil, false, other) are run through the if region's control flow symbolically and each exit must carry the prescribed operand; let binds symbol i to the value of form i+1; no function of the library writes into a form or value it was given, and storage handed to a call inside a loop is not written on the next iteration (C01.no-mutation, shared with C02.write). Helpers extracted from EVAL are analysed as part of the region that calls them.",
+ "C02": " Added: a container handed to a function outside the module whose (instantiated) body writes through that parameter (slices.Insert/Reverse, sort, maps.Copy …) counts as a write.",
+ "C03": " Added: the try form's operand split matches its grammar for each clause combination (C03.shape); NewLispError returns on every path the given object itself (asserted, never looked up in the Unwrap chain) re-positioned, or a new error storing it; under a failed error check the error returned derives from the error checked, or is newly constructed (C03.propagate, whole library).",
+ "C06": " Added: the tokenizer stores the scanner's token text verbatim unless read_form consults token types (the reader classifies by text alone); an integer token is converted by strconv.ParseInt/Atoi on the token text and returned without arithmetic (inverse of the decimal printer over the whole range).",
+ "C07": " Added: the only senders on a future's outcome channels are the body goroutine's single delivery and a reader's re-deposit of the value just received (justifies the unguarded re-deposit in Deref).",
+ "C09": " Added: the retry loop carries no state from a failed attempt (no header phi, no write to storage allocated before the loop, argument list built per attempt); no library function writes into the storage of a value it was given (the optimistic swap! applies the function to a value other threads still see).",
+ "C10": " Added: single outcome (senders inventory as in C07); IsDone returns the Done flag and nothing else and Done is only ever assigned true.",
+ "C11": " Added: every Env gets a mutex allocated in the same activation (a shared mutex makes the lookup's ascent a recursive read lock); the atoms created while the embedded headers load (outside every fn) are exactly the reviewed inventory (gensym counter, load-file-once set).",
+ "C12": " Added: a MalFunc rebuilt field by field from an existing one accounts for every field (macro flag, scope builder); every defmacro in the embedded headers binds a (fn …) literal.",
+ "C13": " Added: the builtins that hand an argument back unchanged are exactly the reviewed ones (get on sets, seq of a non-empty list): a shortcut that returns the input skips remaining arguments or lets the caller decide the result kind.",
+ "C14": " Added: Go's ==/!= on two lisp values is used only where neither can be a comparable struct carrying a source-position pointer (Symbol).",
+ "C15": " Added: the preamble line matched against the pattern is a verbatim piece of the source text (only Cut/Trim/slicing on the way); the slice of the key is proved in bounds from the pattern's mandatory group length.",
+ "C16": " Added: token text verbatim (as C06); Read_str calls read_form exactly once, trailing tokens are rejected with their own error.",
+ "C17": " Added: NewLispError sets the cursor to GetPosition(form) on every path; inside EVAL's loop the position carrier of every error is computed in the current iteration, never from the form EVAL was entered with.",
+ "C18": " Added: the debugger engine holds no mutex across a call that reaches the evaluator (EVAL re-enters the stepper on the same goroutine).",
+ "C19": " Added: no comparison in the evaluator, builtins, environment or value types takes a value's Cursor as operand; slurp returns the file's bytes verbatim; REPL's READ/EVAL/PRINT sequence is followed through unexported helpers.",
+ "C20": " Added: every exported entry point forwards its bounds/namespace/function parameters to the registration routine; the guard in front of the context test demands NumIn() >= 1 and nothing more; the %w wrapping of the panic value is decided by data flow from the recovered value.",
+}
+for _pid, _extra in ADDED.items():
+    t, text, note, ref = CLAIMED[_pid]
+    CLAIMED[_pid] = (t, text + _extra, note, ref)
